@@ -358,3 +358,65 @@ Definition pdu_dup_mp_bad : list N :=
   hex_pdu ([0;0; 0;21] ++ [128; 15; 5; 0;2;1; 8; 32] ++ [128; 15; 3; 0;2;1] ++ [128; 15; 4; 0;2;1; 200]).
 (* unguarded, the shortcut drops routes: 10.0.0.0/8 next to an empty MP_UNREACH_NLRI for IPv6 unicast *)
 Definition upd_eorlike : update := MkUpd [] [AGen 64 1 [0]; AUnreach 128 (MpPfx F6U [])] [MkPfx 8 [10]].
+
+(* ---------- the rendered form of a route's attributes ---------- *)
+(* What a user sees of a route ("HTTP GET <rib>/<prefix>", mqtt-out, file-out): the JSON
+   array serde makes of the route's attribute map (src/payload.rs, Serialize for
+   RotondaPaMap), as far as the property speaks about it: MP_REACH_NLRI / MP_UNREACH_NLRI
+   are left out, the members of the four community attributes (COMMUNITIES 8, EXTENDED
+   COMMUNITIES 16, IPv6 address specific extended communities 25, LARGE_COMMUNITY 32) are
+   collected in ONE list, every other attribute is one element of its own, in PDU order.
+   A community attribute whose length is not a multiple of its member size is not a list
+   of communities (routecore: `invalid`); it is shown as an element of its own. *)
+Definition comm_size (ty : N) : option nat :=
+  match ty with 8 => Some 4%nat | 16 => Some 8%nat | 25 => Some 20%nat | 32 => Some 12%nat | _ => None end.
+
+(* cut a value into members of k octets; fuel = number of octets is enough *)
+Fixpoint chunks (fuel k : nat) (l : list N) : list (list N) :=
+  match fuel, l with
+  | S fuel', _ :: _ => firstn k l :: chunks fuel' k (skipn k l)
+  | _, _ => []
+  end.
+
+Definition comm := (N * list N)%type.     (* attribute type it came in, its octets *)
+
+(* the communities an attribute contributes; None: the attribute is not a (valid) community attribute *)
+Definition attr_comms (a : attr) : option (list comm) :=
+  match comm_size (a_type a) with
+  | Some k => if Nat.eqb (Nat.modulo (length (a_value a)) k) 0
+              then Some (map (pair (a_type a)) (chunks (length (a_value a)) k (a_value a)))
+              else None
+  | None => None
+  end.
+
+Definition is_mp (a : attr) : bool := is_reach a || is_unreach a.
+
+(* the elements that are path attributes, by type code, in order *)
+Definition json_kinds (l : list attr) : list N :=
+  flat_map (fun a => if is_mp a then [] else match attr_comms a with Some _ => [] | None => [a_type a] end) l.
+(* the one community list *)
+Definition json_comms (l : list attr) : list comm :=
+  flat_map (fun a => match attr_comms a with Some cs => cs | None => [] end) l.
+
+Record jshape := MkShape { j_kinds : list N; j_comms : list comm }.
+Definition json_shape (l : list attr) : jshape := MkShape (json_kinds l) (json_comms l).
+
+(* the rendered attributes of the routes an UPDATE announces (every route of an UPDATE
+   carries the same list, C04_events_exact); None: no route is announced *)
+Definition announces (u : update) : bool :=
+  existsb (fun e => match e with EvA _ _ _ => true | EvW _ _ => false end) (events u).
+Definition json_of_update (u : update) : option jshape :=
+  if announces u then Some (json_shape (u_attrs u)) else None.
+
+(* declarative reading used in the statements: the valid community attributes of a type,
+   the plain attributes *)
+Definition is_comm_attr (ty : N) (a : attr) : bool :=
+  (a_type a =? ty) && match attr_comms a with Some _ => true | None => false end.
+Definition is_plain_attr (a : attr) : bool :=
+  negb (is_mp a) && match attr_comms a with Some _ => false | None => true end.
+
+(* named value of Props_C04.v: COMMUNITIES after LARGE_COMMUNITY and EXTENDED COMMUNITIES,
+   an odd-sized COMMUNITIES attribute, an MP_UNREACH_NLRI in between *)
+Definition attrs_json_example : list attr :=
+  [AGen 192 32 [0;0;253;232; 0;0;0;1; 0;0;0;2]; AGen 64 1 [0]; AGen 192 16 [0;2;253;232;0;0;0;100];
+   AUnreach 128 (MpPfx F6U []); AGen 192 8 [253;232;0;1; 253;232;0;2]; AGen 192 8 [1;2;3]].
